@@ -4750,6 +4750,13 @@ class WBEMConnection:  # pylint: disable=too-many-instance-attributes
 
             for instance in instances:
 
+                if not isinstance(instance, CIMInstance):
+                    raise CIMXMLParseError(
+                        _format("Expecting CIMInstance object in result "
+                                "list, got {0} object",
+                                instance.__class__.__name__),
+                        conn_id=self.conn_id)
+
                 # The ExecQuery CIM-XML operation returns instances as any of
                 # (VALUE.OBJECT | VALUE.OBJECTWITHLOCALPATH |
                 # VALUE.OBJECTWITHPATH), i.e. classes or instances with or
